@@ -1,8 +1,619 @@
-import DFV.Model.C09
+import DFV.Lemmas.C09Examples
+/-!
+# C09 - OVF files round-trip fields and follow the OVF 1.0/2.0 format
+
+Property theorems about the model of `_to_ovf` / `_from_ovf` (`DFV/Model/C09.lean`).
+Mesh sizes, cell positions, component counts, labels, units, payload values, byte strings and
+truncation points are universally quantified.  Payload values are abstract tokens of a type
+`α` moved by a codec `c : Codec α`; what the codec has to satisfy is the explicit hypothesis
+`c.Lawful narrow` (`dec (enc x) = x` for 8 bytes, `= narrow x` for 4 bytes, every value
+occupies exactly `w` bytes).  Python's `repr`/`float` (header numbers, text payload) and
+`struct`/`numpy` (bytes) are the trusted instances; the driver's bit-exact IEEE-754 codec on
+rationals is compared with them byte for byte on every run.
+-/
 namespace DFV.C09
 open DFV
 
-/-- placeholder while the harness is being built -/
-theorem scan_nil (acc : List (String × HVal)) : scan [] acc = none := rfl
+/-! ## Payload order -/
+
+/-- The writer's payload is x-fastest with components innermost: the value of cell
+`(i, j, k)`, component `c`, sits at position `((k*ny + j)*nx + i)*nvdim + c` of
+`array.transpose((2, 1, 0, 3)).flat`. -/
+theorem payload_order {α} (f : OField α) (nx ny nz nv : Nat) (hs : f.arr.shape = [nx, ny, nz, nv])
+    (i j k c : Nat) (hi : i < nx) (hj : j < ny) (hk : k < nz) (hc : c < nv) (d : α) :
+    (flatPayload f).getD (((k * ny + j) * nx + i) * nv + c) d = f.arr.get [i, j, k, c] :=
+  flatPayload_getD f nx ny nz nv hs i j k c hi hj hk hc d
+
+/-- `reshape((*reversed(n), nvdim)).transpose((2, 1, 0, 3))` of the reader undoes the writer's
+flattening: every value returns to its own cell and component. -/
+theorem payload_roundtrip {α} (f : OField α) (nx ny nz nv : Nat) (hs : f.arr.shape = [nx, ny, nz, nv])
+    (d : α) (arr : NDA α) (h : unflatten [nx, ny, nz] nv (flatPayload f) d = .ok arr)
+    (i j k c : Nat) (hi : i < nx) (hj : j < ny) (hk : k < nz) (hc : c < nv) :
+    arr.get [i, j, k, c] = f.arr.get [i, j, k, c] ∧ arr.shape = f.arr.shape := by
+  obtain ⟨h1, h2⟩ := unflatten_get nx ny nz nv _ d arr h i j k c
+  rw [h1, flatPayload_getD f nx ny nz nv hs i j k c hi hj hk hc, h2, hs]
+  exact ⟨rfl, rfl⟩
+
+/-! ## Mesh recovery from `stepsize` -/
+
+/-- `round(edge / (edge / n)) = n`: the reader's cell count is the writer's. -/
+theorem n_recovered (e : Rat) (he : 0 < e) (n : Nat) (hn : 0 < n) :
+    (Mesh.roundHalfEven (e / (e / (n : Rat)))).toNat = n :=
+  n_recovered_axis e he n hn
+
+/-- `Mesh(region, cell = edges / n)` passes every check of the constructor (positive cells,
+cell not larger than the region, divisibility) and has exactly `n` cells, in any number of
+dimensions. -/
+theorem mesh_recovered (r : Region) (n : List Nat) (hn : n.length = r.ndim)
+    (hr : ∀ a, a < r.ndim → r.lo a < r.hi a) (hpos : ∀ a, a < r.ndim → 0 < n.getD a 0) :
+    Mesh.mkCell? r (tab r.ndim fun a => r.edge a / (n.getD a 0 : Rat))
+      = .ok { region := r, n := n, bc := "", subs := [] } :=
+  mkCell_ok r n hn hr hpos
+
+/-! ## Bytes of the data block -/
+
+/-- The chunked writer loses and duplicates nothing: the chunks `flat[i*cs : (i+1)*cs]`,
+`i < ceil(len/cs)`, concatenate to the whole payload, for every chunk size and length. -/
+theorem chunks_concat {α} (cs : Nat) (hcs : 0 < cs) (l : List α) : (chunked cs l).flatten = l :=
+  chunked_flatten cs hcs l
+
+/-- ... and so do the bytes written chunk by chunk. -/
+theorem chunked_bytes {α} (c : Codec α) (w : Nat) (cs : Nat) (hcs : 0 < cs) (l : List α) :
+    ((chunked cs l).flatMap fun ch => ch.flatMap (c.enc true w)) = l.flatMap (c.enc true w) := by
+  rw [flatMap_flatten', chunked_flatten cs hcs]
+
+/-- `np.fromfile` on an encoded block gives back the values one by one, whatever follows the
+block (newline, footer): `dec (enc x)` for each. -/
+theorem data_block_decodes {α} (c : Codec α) (le : Bool) (w : Nat) (hw : 0 < w) (xs : List α)
+    (tail : List Byte) (hl : ∀ x, (c.enc le w x).length = w) :
+    fromfile c le w (xs.flatMap (c.enc le w) ++ tail) xs.length
+      = xs.map fun x => c.dec le w (c.enc le w x) :=
+  fromfile_block c le w hw xs tail hl
+
+/-! ## Labels and units through the header -/
+
+/-- Component labels survive `valuelabels: field_<c> ...` → regex → `convert`, for every
+list of distinct word-character labels (underscores inside the labels included - D15). -/
+theorem labels_roundtrip (isWord : Char → Bool) (W : WordClass isWord) (vs : List String)
+    (hl : ∀ v ∈ vs, IsLabel isWord v.toList) (hd : hasDup vs = false) :
+    recoverLabels isWord (String.ofList (joinSp (vs.map fun c => "field_".toList ++ c.toList))) = some vs :=
+  recoverLabels_written isWord W vs hl hd
+
+/-- The field unit survives `valueunits`, and an absent unit comes back absent (D14), for
+every number of components. -/
+theorem unit_roundtrip {α} (f : OField α) (extend : Bool) (hu : UnitOk f.unit) (hd : 0 < writeDim f extend) :
+    recoverUnit (valueUnits f extend) = f.unit :=
+  unit_roundtrip' f extend hu hd
+
+/-! ## Round trips -/
+
+/-- **Round trip** (`to_file` then `from_file`, binary representations): the file the writer
+produces is read back to a field with the same region corners, mesh unit, cell counts,
+component count, field unit (including no unit) and - for vector fields - component labels
+(underscores included), and every value lands in its own cell and component: unchanged for
+bin8, float32-rounded (`narrow`) for bin4. -/
+theorem ovf_roundtrip {α} [DecidableEq α] (c : Codec α) (narrow : α → α) (L : c.Lawful narrow)
+    (isWord : Char → Bool) (W : WordClass isWord) (reserved : String → Bool)
+    (f : OField α) (V : Valid f) (hl : LabelsOk isWord reserved f) (hu : UnitOk f.unit)
+    (rep : String) (w : Nat) (hrep : (rep = "bin4" ∧ w = 4) ∨ (rep = "bin8" ∧ w = 8)) :
+    ∃ F g, toOvf c f rep false = .ok F ∧ fromOvf c isWord reserved F none = .ok g ∧
+      g.mesh.region.pmin = f.mesh.region.pmin ∧ g.mesh.region.pmax = f.mesh.region.pmax ∧
+      g.mesh.region.units = f.mesh.region.units ∧ g.mesh.n = f.mesh.n ∧
+      g.nvdim = f.nvdim ∧ g.unit = f.unit ∧ (1 < f.nvdim → g.vdims = f.vdims) ∧
+      ∀ i j k cc, i < f.mesh.nAt 0 → j < f.mesh.nAt 1 → k < f.mesh.nAt 2 → cc < f.nvdim →
+        g.arr.get [i, j, k, cc] = conv narrow w (f.arr.get [i, j, k, cc]) := by
+  obtain ⟨labels, vd', hlab, hset, hvd'⟩ := labels_written isWord W reserved f hl V.nv
+  have hw : w = 4 ∨ w = 8 := by rcases hrep with ⟨_, h⟩ | ⟨_, h⟩ <;> simp [h]
+  have hF := toOvf_bin c f V rep w hrep labels hlab
+  obtain ⟨e1, e2, e3⟩ := valid_lists f V
+  have hshape : f.arr.shape = [f.mesh.nAt 0, f.mesh.nAt 1, f.mesh.nAt 2, f.nvdim] := by
+    rw [V.shape, ← e3]; rfl
+  have hwd : writeDim f false = f.nvdim := by simp [writeDim]
+  have hcount : (flatPayload f).length = natProd [f.mesh.nAt 0, f.mesh.nAt 1, f.mesh.nAt 2] * f.nvdim := by
+    rw [flatPayload_length f _ _ _ _ hshape]; simp [natProd]; ring
+  have hp := parse_bin_ok c narrow L
+    { first := "# OOMMF OVF 2.0", lines := headerLines f false labels ["Binary", toString w],
+      body := .bin (c.enc true w (c.magic w) ++ ((flatPayload f).flatMap (c.enc true w)
+                ++ 10 :: footerBytes ["Binary", toString w])) }
+    (writtenHeader f false labels) f.mesh.region.lo f.mesh.region.hi f.mesh.cellAt f.mesh.nAt
+    (f.mesh.region.units.getD 0 "") (headerOf_written f false labels) V.lt V.npos (fun a _ => rfl)
+    w hw ["Binary", toString w] (width_words w hw) (scan_written f false labels _)
+    f.nvdim V.nv (by rw [← hwd]; exact valueDim_written f false labels)
+    (flatPayload f) (10 :: footerBytes ["Binary", toString w])
+    (by
+      have : isV2 "# OOMMF OVF 2.0" = true := by decide +kernel
+      simp only [this])
+    hcount
+  have hg := fromOvf_of_parse c isWord reserved _ _ _ _ _ f.nvdim V.nv _ _ hp
+    (by rw [List.length_map]; exact hcount) vd'
+    (by rw [labelsOf_written]; exact hset)
+  refine ⟨_, _, hF, hg, ?_, ?_, ?_, ?_, rfl, ?_, hvd', ?_⟩
+  · exact e1
+  · exact e2
+  · exact V.units.symm
+  · exact e3
+  · show unitOf (writtenHeader f false labels) = f.unit
+    rw [unitOf_written]
+    exact unit_roundtrip' f false hu (by rw [hwd]; exact V.nv)
+  · intro i j k cc hi hj hk hcc
+    show ((NDA.ofList ([f.mesh.nAt 0, f.mesh.nAt 1, f.mesh.nAt 2].reverse ++ [f.nvdim])
+      ((flatPayload f).map (conv narrow w)) c.zero).transpose [2, 1, 0, 3]).get [i, j, k, cc] = _
+    rw [transpose_get4 _ (by simp [NDA.ofList, NDA.ofArray]), ofList_get]
+    have hpos : flatC ([f.mesh.nAt 0, f.mesh.nAt 1, f.mesh.nAt 2].reverse ++ [f.nvdim]) [k, j, i, cc]
+        = pos (f.mesh.nAt 0) (f.mesh.nAt 1) f.nvdim i j k cc := by
+      rw [pos_eq_flatC _ _ (f.mesh.nAt 2)]; rfl
+    rw [hpos]
+    have hlt : pos (f.mesh.nAt 0) (f.mesh.nAt 1) f.nvdim i j k cc < (flatPayload f).length := by
+      rw [flatPayload_length f _ _ _ _ hshape]
+      exact pos_lt _ _ _ _ _ _ _ _ hi hj hk hcc
+    rw [getD_map_lt _ _ _ _ c.zero hlt, flatPayload_getD f _ _ _ _ hshape i j k cc hi hj hk hcc]
+
+
+/-- `extend_scalar=True`: a one-component field is stored as `(x, 0, 0)` in every cell and
+read back as a three-component field with default labels. -/
+theorem extend_scalar_roundtrip {α} [DecidableEq α] (c : Codec α) (narrow : α → α) (L : c.Lawful narrow)
+    (isWord : Char → Bool) (W : WordClass isWord) (reserved : String → Bool)
+    (f : OField α) (V : Valid f) (h1 : f.nvdim = 1) (hu : UnitOk f.unit)
+    (rep : String) (w : Nat) (hrep : (rep = "bin4" ∧ w = 4) ∨ (rep = "bin8" ∧ w = 8)) :
+    ∃ F g, toOvf c f rep true = .ok F ∧ fromOvf c isWord reserved F none = .ok g ∧
+      g.mesh.region.pmin = f.mesh.region.pmin ∧ g.mesh.region.pmax = f.mesh.region.pmax ∧
+      g.mesh.n = f.mesh.n ∧ g.nvdim = 3 ∧ g.unit = f.unit ∧ g.vdims = some ["x", "y", "z"] ∧
+      ∀ i j k, i < f.mesh.nAt 0 → j < f.mesh.nAt 1 → k < f.mesh.nAt 2 →
+        g.arr.get [i, j, k, 0] = conv narrow w (f.arr.get [i, j, k, 0]) ∧
+        g.arr.get [i, j, k, 1] = c.zero ∧ g.arr.get [i, j, k, 2] = c.zero := by
+  have hw : w = 4 ∨ w = 8 := by rcases hrep with ⟨_, h⟩ | ⟨_, h⟩ <;> simp [h]
+  have hF := toOvf_bin_extend c f V h1 rep w hrep
+  obtain ⟨e1, e2, e3⟩ := valid_lists f V
+  have hshape : f.arr.shape = [f.mesh.nAt 0, f.mesh.nAt 1, f.mesh.nAt 2, 1] := by
+    rw [V.shape, ← e3, h1]; rfl
+  have hwd : writeDim f true = 3 := by simp [writeDim, h1]
+  have hplen : (flatPayload f).length = natProd [f.mesh.nAt 0, f.mesh.nAt 1, f.mesh.nAt 2] := by
+    rw [flatPayload_length f _ _ _ _ hshape]; simp [natProd]; ring
+  have hcount : ((flatPayload f).flatMap fun x => [x, c.zero, c.zero]).length
+      = natProd [f.mesh.nAt 0, f.mesh.nAt 1, f.mesh.nAt 2] * 3 := by
+    rw [triple_length, hplen]
+  have hp := parse_bin_ok c narrow L
+    { first := "# OOMMF OVF 2.0",
+      lines := headerLines f true (String.ofList (joinSp (List.replicate 3 "field_x".toList))) ["Binary", toString w],
+      body := .bin (c.enc true w (c.magic w) ++ (((flatPayload f).flatMap fun x => [x, c.zero, c.zero]).flatMap (c.enc true w)
+                ++ 10 :: footerBytes ["Binary", toString w])) }
+    (writtenHeader f true _) f.mesh.region.lo f.mesh.region.hi f.mesh.cellAt f.mesh.nAt
+    (f.mesh.region.units.getD 0 "") (headerOf_written f true _) V.lt V.npos (fun a _ => rfl)
+    w hw ["Binary", toString w] (width_words w hw) (scan_written f true _ _)
+    3 (by omega) (by rw [← hwd]; exact valueDim_written f true _)
+    ((flatPayload f).flatMap fun x => [x, c.zero, c.zero]) (10 :: footerBytes ["Binary", toString w])
+    (by
+      have : isV2 "# OOMMF OVF 2.0" = true := by decide +kernel
+      simp only [this])
+    hcount
+  have hset : vdimsSetter reserved 3 (labelsOf isWord (writtenHeader f true
+      (String.ofList (joinSp (List.replicate 3 "field_x".toList))))) = .ok (some ["x", "y", "z"]) := by
+    rw [labelsOf_written, recoverLabels_dup isWord W]; rfl
+  have hg := fromOvf_of_parse c isWord reserved _ _ _ _ _ 3 (by omega) _ _ hp
+    (by rw [List.length_map]; exact hcount) _ hset
+  refine ⟨_, _, hF, hg, e1, e2, e3, rfl, ?_, rfl, ?_⟩
+  · show unitOf (writtenHeader f true (String.ofList (joinSp (List.replicate 3 "field_x".toList)))) = f.unit
+    rw [unitOf_written]
+    exact unit_roundtrip' f true hu (by rw [hwd]; omega)
+  · intro i j k hi hj hk
+    have key : ∀ cc, cc < 3 →
+        ((NDA.ofList ([f.mesh.nAt 0, f.mesh.nAt 1, f.mesh.nAt 2].reverse ++ [3])
+          (((flatPayload f).flatMap fun x => [x, c.zero, c.zero]).map (conv narrow w)) c.zero).transpose
+            [2, 1, 0, 3]).get [i, j, k, cc]
+        = conv narrow w (if cc = 0 then f.arr.get [i, j, k, 0] else c.zero) := by
+      intro cc hcc
+      rw [transpose_get4 _ (by simp [NDA.ofList, NDA.ofArray]), ofList_get]
+      have hpos : flatC ([f.mesh.nAt 0, f.mesh.nAt 1, f.mesh.nAt 2].reverse ++ [3]) [k, j, i, cc]
+          = pos (f.mesh.nAt 0) (f.mesh.nAt 1) 1 i j k 0 * 3 + cc := by
+        simp [flatC, natProd, pos]; ring
+      rw [hpos]
+      have hlt1 : pos (f.mesh.nAt 0) (f.mesh.nAt 1) 1 i j k 0 < (flatPayload f).length := by
+        rw [flatPayload_length f _ _ _ _ hshape]
+        exact pos_lt _ _ _ _ _ _ _ _ hi hj hk (by omega)
+      have hlt : pos (f.mesh.nAt 0) (f.mesh.nAt 1) 1 i j k 0 * 3 + cc
+          < ((flatPayload f).flatMap fun x => [x, c.zero, c.zero]).length := by
+        rw [triple_length]; omega
+      rw [getD_map_lt _ _ _ _ c.zero hlt, triple_getD _ _ _ _ _ hlt1 hcc,
+        flatPayload_getD f _ _ _ _ hshape i j k 0 hi hj hk (by omega)]
+    have hz : conv narrow w c.zero = c.zero := by
+      unfold conv; split
+      · exact L.narrow_zero
+      · rfl
+    refine ⟨?_, ?_, ?_⟩
+    · have := key 0 (by omega); simp only [if_true] at this; exact this
+    · have := key 1 (by omega); simp only [Nat.one_ne_zero, if_false, hz] at this; exact this
+    · have := key 2 (by omega)
+      rw [if_neg (by omega), hz] at this; exact this
+
+/-- Finding D21, on the model: with `extend_scalar=True` the binary writer rejects every field
+that has more than one component (the `reshape` to the mesh shape cannot fit). -/
+theorem extend_vector_bin_rejected {α} (c : Codec α) (f : OField α) (V : Valid f) (h1 : 1 < f.nvdim)
+    (rep : String) (hrep : rep = "bin4" ∨ rep = "bin8") :
+    ∃ e, toOvf c f rep true = .error e := by
+  have hsz : natProd f.arr.shape ≠ natProd f.mesh.n := by
+    rw [V.shape, natProd_append1]
+    have hp : 0 < natProd f.mesh.n := by
+      apply natProd_pos
+      intro m hm
+      obtain ⟨e1, e2, e3⟩ := valid_lists f V
+      rw [← e3] at hm
+      simp only [List.mem_cons, List.mem_nil_iff, or_false] at hm
+      rcases hm with rfl | rfl | rfl
+      · exact V.npos 0 (by omega)
+      · exact V.npos 1 (by omega)
+      · exact V.npos 2 (by omega)
+    intro h
+    have : natProd f.mesh.n * f.nvdim = natProd f.mesh.n * 1 := by omega
+    have := Nat.eq_of_mul_eq_mul_left hp this
+    omega
+  unfold toOvf
+  split
+  · exact ⟨_, rfl⟩
+  · split
+    · exact ⟨_, rfl⟩
+    · split
+      · exact ⟨_, rfl⟩
+      · split
+        · exact ⟨_, rfl⟩
+        · rename_i rw hrw _
+          split
+          · rename_i h0
+            rcases hrep with rfl | rfl <;> simp [repWidth] at h0
+          · simp only [binValues, hsz, if_true, ne_eq, not_false_eq_true]
+            exact ⟨_, rfl⟩
+
+
+/-! ## Foreign files and the independent reader -/
+
+/-- Files of an independent OVF 1.0 (big endian, three components, no `valuedim`) or OVF 2.0
+(little endian) binary writer are read to that writer's content. -/
+theorem reader_v1_v2 {α} [DecidableEq α] (c : Codec α) (narrow : α → α) (L : c.Lawful narrow)
+    (isWord : Char → Bool) (reserved : String → Bool) (v2 : Bool) (w : Nat) (hw : w = 4 ∨ w = 8)
+    (x : Content α) (hstep : ∀ a, a < 3 → 0 < x.step.getD a 0) (hn : ∀ a, a < 3 → 0 < x.nodes.getD a 0)
+    (hvd : 0 < x.vd) (hv1 : v2 = false → x.vd = 3)
+    (hcount : x.values.length = natProd [x.nodes.getD 0 0, x.nodes.getD 1 0, x.nodes.getD 2 0] * x.vd) :
+    ∃ g, fromOvf c isWord reserved (refWriter c v2 w x) none = .ok g ∧
+      g.mesh.n = [x.nodes.getD 0 0, x.nodes.getD 1 0, x.nodes.getD 2 0] ∧
+      g.mesh.region.pmin = [x.lo 0, x.lo 1, x.lo 2] ∧ g.mesh.region.pmax = [x.hi 0, x.hi 1, x.hi 2] ∧
+      g.mesh.region.units = [x.meshunit, x.meshunit, x.meshunit] ∧ g.nvdim = x.vd ∧
+      g.vdims = Fld.defaultVdims x.vd ∧ g.unit = none ∧
+      ∀ i j k cc, i < x.nodes.getD 0 0 → j < x.nodes.getD 1 0 → k < x.nodes.getD 2 0 → cc < x.vd →
+        g.arr.get [i, j, k, cc]
+          = conv narrow w (x.values.getD (pos (x.nodes.getD 0 0) (x.nodes.getD 1 0) x.vd i j k cc) c.zero) := by
+  have hw0 : ¬ (w = 0) := by rcases hw with rfl | rfl <;> omega
+  have hlt : ∀ a, a < 3 → x.lo a < x.hi a := by
+    intro a ha
+    have h1 := hstep a ha
+    have h2 : (0 : Rat) < (x.nodes.getD a 0 : Rat) := by exact_mod_cast hn a ha
+    unfold Content.lo Content.hi
+    have := mul_pos h2 h1
+    linarith
+  have hc : ∀ a, a < 3 → x.step.getD a 0 = (x.hi a - x.lo a) / ((x.nodes.getD a 0 : Nat) : Rat) := by
+    intro a ha
+    have h2 : ((x.nodes.getD a 0 : Nat) : Rat) ≠ 0 := by
+      have : (0 : Rat) < (x.nodes.getD a 0 : Rat) := by exact_mod_cast hn a ha
+      exact ne_of_gt this
+    unfold Content.lo Content.hi
+    field_simp
+    ring
+  have hscan := scan_ref c v2 w x
+  rw [if_neg hw0] at hscan
+  have hbody : (refWriter c v2 w x).body = .bin (c.enc (isV2 (refWriter c v2 w x).first) w (c.magic w)
+      ++ (x.values.flatMap (c.enc (isV2 (refWriter c v2 w x).first) w)
+      ++ 10 :: footerBytes ["Binary", toString w])) := by
+    rw [isV2_ref]
+    simp [refWriter, hw0, List.append_assoc]
+  have hp := parse_bin_ok c narrow L (refWriter c v2 w x) (refHeader v2 x) x.lo x.hi
+    (fun a => x.step.getD a 0) (fun a => x.nodes.getD a 0) x.meshunit (headerOf_ref v2 x) hlt hn hc
+    w hw ["Binary", toString w] (width_words w hw) hscan x.vd hvd (valueDim_ref c v2 w x hv1)
+    x.values _ hbody hcount
+  have hset : vdimsSetter reserved x.vd (labelsOf isWord (refHeader v2 x)) = .ok (Fld.defaultVdims x.vd) := by
+    rw [labelsOf_ref]; rfl
+  have hg := fromOvf_of_parse c isWord reserved _ _ _ _ _ x.vd hvd _ _ hp
+    (by rw [List.length_map]; exact hcount) _ hset
+  refine ⟨_, hg, rfl, rfl, rfl, rfl, rfl, rfl, unitOf_ref v2 x, ?_⟩
+  intro i j k cc hi hj hk hcc
+  show ((NDA.ofList ([x.nodes.getD 0 0, x.nodes.getD 1 0, x.nodes.getD 2 0].reverse ++ [x.vd])
+    (x.values.map (conv narrow w)) c.zero).transpose [2, 1, 0, 3]).get [i, j, k, cc] = _
+  rw [transpose_get4 _ (by simp [NDA.ofList, NDA.ofArray]), ofList_get]
+  have hpos : flatC ([x.nodes.getD 0 0, x.nodes.getD 1 0, x.nodes.getD 2 0].reverse ++ [x.vd]) [k, j, i, cc]
+      = pos (x.nodes.getD 0 0) (x.nodes.getD 1 0) x.vd i j k cc := by
+    rw [pos_eq_flatC _ _ (x.nodes.getD 2 0)]; rfl
+  rw [hpos]
+  have hlt' : pos (x.nodes.getD 0 0) (x.nodes.getD 1 0) x.vd i j k cc < x.values.length := by
+    rw [hcount]
+    have := pos_lt _ _ _ _ _ _ _ _ hi hj hk hcc
+    simp only [natProd] at this ⊢
+    calc _ < _ := this
+      _ = _ := by ring
+  rw [getD_map_lt _ _ _ _ c.zero hlt']
+
+
+/-- The written file is an OVF 2.0 file that an independent reader (mesh from
+`base/stepsize/nodes`, little-endian values in x-fastest order) decodes to the same mesh and
+the same data. -/
+theorem independent_reader {α} [DecidableEq α] (c : Codec α) (narrow : α → α) (L : c.Lawful narrow)
+    (isWord : Char → Bool) (W : WordClass isWord) (reserved : String → Bool)
+    (f : OField α) (V : Valid f) (hl : LabelsOk isWord reserved f)
+    (rep : String) (w : Nat) (hrep : (rep = "bin4" ∧ w = 4) ∨ (rep = "bin8" ∧ w = 8)) :
+    ∃ F x, toOvf c f rep false = .ok F ∧ isV2 F.first = true ∧ refReader c F = .ok x ∧
+      x.nodes = f.mesh.n ∧ x.vd = f.nvdim ∧
+      (∀ a, a < 3 → x.lo a = f.mesh.region.lo a ∧ x.hi a = f.mesh.region.hi a) ∧
+      ∀ i j k cc, i < f.mesh.nAt 0 → j < f.mesh.nAt 1 → k < f.mesh.nAt 2 → cc < f.nvdim →
+        x.values.getD (pos (f.mesh.nAt 0) (f.mesh.nAt 1) f.nvdim i j k cc) c.zero
+          = conv narrow w (f.arr.get [i, j, k, cc]) := by
+  obtain ⟨labels, vd', hlab, _, _⟩ := labels_written isWord W reserved f hl V.nv
+  have hw : w = 4 ∨ w = 8 := by rcases hrep with ⟨_, h⟩ | ⟨_, h⟩ <;> simp [h]
+  have hw0 : 0 < w := by rcases hw with rfl | rfl <;> omega
+  have hF := toOvf_bin c f V rep w hrep labels hlab
+  obtain ⟨e1, e2, e3⟩ := valid_lists f V
+  have hshape : f.arr.shape = [f.mesh.nAt 0, f.mesh.nAt 1, f.mesh.nAt 2, f.nvdim] := by
+    rw [V.shape, ← e3]; rfl
+  have hwd : writeDim f false = f.nvdim := by simp [writeDim]
+  have hcount : (flatPayload f).length = natProd [f.mesh.nAt 0, f.mesh.nAt 1, f.mesh.nAt 2] * f.nvdim := by
+    rw [flatPayload_length f _ _ _ _ hshape]; simp [natProd]; ring
+  have hlen : (c.enc true w (c.magic w)).length = w := L.enc_len _ _ _
+  have hread : refReader c
+      { first := "# OOMMF OVF 2.0", lines := headerLines f false labels ["Binary", toString w],
+        body := .bin (c.enc true w (c.magic w) ++ ((flatPayload f).flatMap (c.enc true w)
+                  ++ 10 :: footerBytes ["Binary", toString w])) }
+      = .ok { base := [f.mesh.region.lo 0 + f.mesh.cellAt 0 / 2, f.mesh.region.lo 1 + f.mesh.cellAt 1 / 2,
+                       f.mesh.region.lo 2 + f.mesh.cellAt 2 / 2],
+              step := [f.mesh.cellAt 0, f.mesh.cellAt 1, f.mesh.cellAt 2],
+              nodes := [f.mesh.nAt 0, f.mesh.nAt 1, f.mesh.nAt 2], vd := f.nvdim,
+              meshunit := f.mesh.region.units.getD 0 "",
+              values := (flatPayload f).map (conv narrow w) } := by
+    unfold refReader
+    simp only [scan_written]
+    have hb : hnums (writtenHeader f false labels) "xbase" "ybase" "zbase"
+        = .ok [f.mesh.region.lo 0 + f.mesh.cellAt 0 / 2, f.mesh.region.lo 1 + f.mesh.cellAt 1 / 2,
+               f.mesh.region.lo 2 + f.mesh.cellAt 2 / 2] := by
+      simp [hnums, hnum, hget, writtenHeader, List.find?, HVal.toNum, bind, Except.bind]
+    have hvd : hnat (writtenHeader f false labels) "valuedim" = .ok f.nvdim := by
+      simp [hnat, hget, writtenHeader, List.find?, HVal.toNat, bind, Except.bind, hwd]
+    have H := headerOf_written f false labels
+    rw [hb, H.step, H.nodes, hvd, H.mu]
+    simp only [bind, Except.bind, HVal.text]
+    unfold refReaderBody
+    simp only [parseNat_width w hw, Option.getD_some]
+    have c1 : ¬ ((c.enc true w (c.magic w) ++ ((flatPayload f).flatMap (c.enc true w)
+        ++ 10 :: footerBytes ["Binary", toString w])).length < w) := by
+      rw [List.length_append, hlen]; omega
+    have c3 : (c.enc true w (c.magic w) ++ ((flatPayload f).flatMap (c.enc true w)
+        ++ 10 :: footerBytes ["Binary", toString w])).take w = c.enc true w (c.magic w) := by
+      rw [List.take_append_of_le_length (by omega), List.take_of_length_le (by omega)]
+    have c4 : (c.enc true w (c.magic w) ++ ((flatPayload f).flatMap (c.enc true w)
+        ++ 10 :: footerBytes ["Binary", toString w])).drop w
+        = (flatPayload f).flatMap (c.enc true w) ++ 10 :: footerBytes ["Binary", toString w] := by
+      have := List.drop_left (l₁ := c.enc true w (c.magic w))
+        (l₂ := (flatPayload f).flatMap (c.enc true w) ++ 10 :: footerBytes ["Binary", toString w])
+      rw [hlen] at this; exact this
+    have c5 := fromfile_block c true w hw0 (flatPayload f) (10 :: footerBytes ["Binary", toString w])
+      (fun x => L.enc_len true w x)
+    have c6 : ((flatPayload f).map fun x => c.dec true w (c.enc true w x)) = (flatPayload f).map (conv narrow w) :=
+      List.map_congr_left (fun x _ => dec_enc_conv c narrow L true w hw x)
+    rw [if_neg c1, c3, dec_enc_magic c narrow L true w hw, c4, ← hcount, c5, c6]
+    simp
+  refine ⟨_, _, hF, (by decide +kernel : isV2 "# OOMMF OVF 2.0" = true), hread, e3, rfl, ?_, ?_⟩
+  · intro a ha
+    have hn : (f.mesh.nAt a : Rat) ≠ 0 := by
+      have : (0 : Rat) < (f.mesh.nAt a : Rat) := by exact_mod_cast V.npos a ha
+      exact ne_of_gt this
+    match a, ha with
+    | 0, _ =>
+      simp only [Content.lo, Content.hi, List.getD_cons_zero, Mesh.cellAt, Region.edge] at hn ⊢
+      constructor
+      · ring
+      · field_simp; ring
+    | 1, _ =>
+      simp only [Content.lo, Content.hi, List.getD_cons_zero, List.getD_cons_succ, Mesh.cellAt, Region.edge] at hn ⊢
+      constructor
+      · ring
+      · field_simp; ring
+    | 2, _ =>
+      simp only [Content.lo, Content.hi, List.getD_cons_zero, List.getD_cons_succ, Mesh.cellAt, Region.edge] at hn ⊢
+      constructor
+      · ring
+      · field_simp; ring
+  · intro i j k cc hi hj hk hcc
+    have hlt : pos (f.mesh.nAt 0) (f.mesh.nAt 1) f.nvdim i j k cc < (flatPayload f).length := by
+      rw [flatPayload_length f _ _ _ _ hshape]
+      exact pos_lt _ _ _ _ _ _ _ _ hi hj hk hcc
+    show ((flatPayload f).map (conv narrow w)).getD _ c.zero = _
+    rw [getD_map_lt _ _ _ _ c.zero hlt, flatPayload_getD f _ _ _ _ hshape i j k cc hi hj hk hcc]
+
+
+/-! ## Damaged files -/
+
+/-- A file whose binary data section is shorter than check value + `prod(n)·valuedim` values
+is never read into a field (whatever the bytes are). -/
+theorem short_block_rejected {α} [DecidableEq α] (c : Codec α) (isWord : Char → Bool)
+    (reserved : String → Bool) (F : OvfFile α) (side : Option (List (String × Region)))
+    (bytes : List Byte) (hbody : F.body = .bin bytes)
+    (hshort : ∀ h ws mesh vd w, scan F.lines [] = some (h, ws) → readMesh h = .ok mesh →
+      valueDim F.first h = .ok vd → dataWidth ws = some w → bytes.length < w * (1 + natProd mesh.n * vd)) :
+    ∃ e, fromOvf c isWord reserved F side = .error e := by
+  cases hres : fromOvf c isWord reserved F side with
+  | error e => exact ⟨e, rfl⟩
+  | ok g =>
+    exfalso
+    obtain ⟨p, mesh, arr, hp, hm, ha⟩ := fromOvf_ok_inv c isWord reserved F side g hres
+    obtain ⟨ws, nodes, hscan, hvd, hmesh, hflat⟩ := parse_ok_inv c F p hp
+    unfold readBody at hflat
+    rw [hbody] at hflat
+    simp only at hflat
+    split at hflat
+    · cases hw : dataWidth ws with
+      | none =>
+        -- parse would have stopped at the data line
+        unfold parse at hp
+        rw [hscan] at hp
+        simp only at hp
+        rename_i hb
+        rw [hb, hw] at hp
+        split at hp
+        · cases hp
+        · simp at hp
+      | some w =>
+        rw [hw] at hflat
+        simp only [Option.getD_some] at hflat
+        obtain ⟨hle, hw48, _, hfl⟩ := readBin_ok_inv c _ w bytes _ _ _ hflat
+        have hw0 : 0 < w := by rcases hw48 with rfl | rfl <;> omega
+        have hlen := fromfile_length_le c (isV2 F.first) w (bytes.drop w) (natProd nodes * p.vd)
+        rw [← hfl, List.length_drop] at hlen
+        have hs := hshort p.header ws p.mesh p.vd w hscan hmesh hvd hw
+        have hn : mesh.n = p.mesh.n := loadSide_n _ _ _ hm
+        unfold unflatten at ha
+        split at ha
+        · cases ha
+        · rename_i hne
+          rw [natProd_append1, natProd_reverse, hn] at hne
+          have : p.flat.length = natProd p.mesh.n * p.vd := by omega
+          rw [this] at hlen
+          have h2 : (bytes.length - w) / w < natProd p.mesh.n * p.vd := by
+            rw [Nat.div_lt_iff_lt_mul hw0]
+            have : w * (1 + natProd p.mesh.n * p.vd) = w + natProd p.mesh.n * p.vd * w := by ring
+            omega
+          omega
+    · cases hflat
+
+/-- A binary file whose check value does not decode to the magic number of its width (for
+every such bit pattern, whatever follows) is rejected. -/
+theorem bad_check_rejected {α} [DecidableEq α] (c : Codec α) (isWord : Char → Bool)
+    (reserved : String → Bool) (F : OvfFile α) (side : Option (List (String × Region)))
+    (bytes : List Byte) (hbody : F.body = .bin bytes)
+    (hchk : ∀ h ws w, scan F.lines [] = some (h, ws) → dataWidth ws = some w →
+      c.dec (isV2 F.first) w (bytes.take w) ≠ c.magic w) :
+    ∃ e, fromOvf c isWord reserved F side = .error e := by
+  cases hres : fromOvf c isWord reserved F side with
+  | error e => exact ⟨e, rfl⟩
+  | ok g =>
+    exfalso
+    obtain ⟨p, mesh, arr, hp, hm, ha⟩ := fromOvf_ok_inv c isWord reserved F side g hres
+    obtain ⟨ws, nodes, hscan, hvd, hmesh, hflat⟩ := parse_ok_inv c F p hp
+    unfold readBody at hflat
+    rw [hbody] at hflat
+    simp only at hflat
+    split at hflat
+    · cases hw : dataWidth ws with
+      | none =>
+        unfold parse at hp
+        rw [hscan] at hp
+        simp only at hp
+        rename_i hb
+        rw [hb, hw] at hp
+        split at hp
+        · cases hp
+        · simp at hp
+      | some w =>
+        rw [hw] at hflat
+        simp only [Option.getD_some] at hflat
+        obtain ⟨_, _, hmag, _⟩ := readBin_ok_inv c _ w bytes _ _ _ hflat
+        exact hchk p.header ws w hscan hw hmag
+    · cases hflat
+
+
+/-- Header truncation: a file that ends before its `# Begin: Data` line is rejected. -/
+theorem no_data_line_rejected {α} [DecidableEq α] (c : Codec α) (isWord : Char → Bool)
+    (reserved : String → Bool) (F : OvfFile α) (side : Option (List (String × Region)))
+    (h : ∀ l ∈ F.lines, ∀ ws, l ≠ .beginData ws) :
+    fromOvf c isWord reserved F side = .error .runtime := by
+  apply fromOvf_error_of_parse
+  unfold parse
+  rw [scan_none_of_no_data F.lines [] h]
+
+/-- Every truncation point inside the data block of a file the writer produced: cutting the
+data section anywhere before the end of the payload (`t < w·(1 + nx·ny·nz·nvdim)`: inside
+the check value, inside a value, between values) makes the reader fail. -/
+theorem truncated_written_rejected {α} [DecidableEq α] (c : Codec α) (isWord : Char → Bool)
+    (reserved : String → Bool) (f : OField α) (V : Valid f) (rep : String) (w : Nat)
+    (hrep : (rep = "bin4" ∧ w = 4) ∨ (rep = "bin8" ∧ w = 8)) (extend : Bool)
+    (F : OvfFile α) (hF : toOvf c f rep extend = .ok F) (bytes : List Byte) (hb : F.body = .bin bytes)
+    (t : Nat) (ht : t < w * (1 + natProd f.mesh.n * writeDim f extend))
+    (side : Option (List (String × Region))) :
+    ∃ e, fromOvf c isWord reserved { F with body := .bin (bytes.take t) } side = .error e := by
+  -- the header of F is the written header whatever the data block is
+  have hlines : ∃ labels, F.first = "# OOMMF OVF 2.0" ∧
+      F.lines = headerLines f extend labels ["Binary", toString w] := by
+    unfold toOvf at hF
+    split at hF
+    · cases hF
+    · split at hF
+      · cases hF
+      · rename_i labels _
+        split at hF
+        · cases hF
+        · rename_i rw hrw
+          split at hF
+          · cases hF
+          · have hrw' : rw = ["Binary", toString w] := by
+              rcases hrep with ⟨rfl, rfl⟩ | ⟨rfl, rfl⟩ <;> (simp [repWords] at hrw; rw [← hrw]; rfl)
+            split at hF
+            · injection hF with hF; subst hF; exact ⟨labels, rfl, by rw [hrw']⟩
+            · split at hF
+              · cases hF
+              · injection hF with hF; subst hF; exact ⟨labels, rfl, by rw [hrw']⟩
+  obtain ⟨labels, hfirst, hl⟩ := hlines
+  have hw : w = 4 ∨ w = 8 := by rcases hrep with ⟨_, h⟩ | ⟨_, h⟩ <;> simp [h]
+  apply short_block_rejected c isWord reserved _ side (bytes.take t) rfl
+  intro h ws mesh vd w' hscan hmesh hvd hw'
+  simp only at hscan hvd
+  rw [hl, scan_written] at hscan
+  injection hscan with hscan
+  injection hscan with h1 h2
+  subst h1; subst h2
+  rw [hfirst, valueDim_written] at hvd
+  injection hvd with hvd
+  rw [readMesh_ok _ _ _ _ _ _ (headerOf_written f extend labels) V.lt V.npos (fun a _ => rfl)] at hmesh
+  injection hmesh with hmesh
+  rw [(width_words w hw).2] at hw'
+  injection hw' with hw'
+  subst hw'; subst hvd; subst hmesh
+  have : (meshOf f.mesh.region.lo f.mesh.region.hi f.mesh.nAt (f.mesh.region.units.getD 0 "")).n = f.mesh.n :=
+    (valid_lists f V).2.2
+  rw [this]
+  have := List.length_take_le t bytes
+  omega
+
+
+/-! ## Non-vacuity: the hypotheses of the theorems above are satisfiable
+
+`toyCodec_lawful : toyCodec.Lawful id`, `isWordC_class : WordClass isWordC`,
+`exField_valid`, `exField_labels`, `exField_unit` are proved in `Lemmas/C09Examples.lean`. -/
+
+/-- the round-trip theorem applies to a concrete field (labels with an underscore, a unit) -/
+example : ∃ F g, toOvf toyCodec exField "bin4" false = .ok F ∧
+    fromOvf toyCodec isWordC (fun s => s == "norm") F none = .ok g ∧ g.vdims = some ["a_b", "c", "d"] ∧
+    g.unit = some "A/m" ∧ g.arr.get [1, 0, 2, 1] = 121 := by
+  obtain ⟨F, g, h1, h2, _, _, _, _, _, hu, hv, hd⟩ :=
+    ovf_roundtrip toyCodec id toyCodec_lawful isWordC isWordC_class (fun s => s == "norm") exField
+      exField_valid exField_labels exField_unit "bin4" 4 (Or.inl ⟨rfl, rfl⟩)
+  refine ⟨F, g, h1, h2, hv (by decide), hu, ?_⟩
+  have := hd 1 0 2 1 (by decide) (by decide) (by decide) (by decide)
+  rw [this]; rfl
+
+/-- a truncation point exists below the bound of `truncated_written_rejected`
+(here: 4·(1 + 6·3) = 76 bytes of check value and payload) -/
+example : (40 : Nat) < 4 * (1 + natProd exField.mesh.n * writeDim exField false) := by decide
+
+/-- a check value different from the magic number exists -/
+example : toyCodec.dec true 8 (List.replicate 8 6) ≠ toyCodec.magic 8 := by decide
+
+/-- the reference-writer theorem applies: a 1 x 2 x 1 OVF 1.0 content -/
+example : ∃ g, fromOvf toyCodec isWordC (fun _ => false)
+    (refWriter toyCodec false 8 { base := [1/2, 1/4, 1], step := [1, 1/2, 2], nodes := [1, 2, 1], vd := 3,
+                                   meshunit := "m", values := [1, 2, 3, 4, 5, 6] }) none = .ok g ∧
+    g.mesh.n = [1, 2, 1] ∧ g.arr.get [0, 1, 0, 2] = 6 := by
+  obtain ⟨g, h, hn, _, _, _, _, _, _, hd⟩ := reader_v1_v2 toyCodec id toyCodec_lawful isWordC (fun _ => false)
+    false 8 (Or.inr rfl)
+    { base := [1/2, 1/4, 1], step := [1, 1/2, 2], nodes := [1, 2, 1], vd := 3, meshunit := "m",
+      values := [1, 2, 3, 4, 5, 6] }
+    (by intro a ha; match a, ha with | 0, _ => decide +kernel | 1, _ => decide +kernel | 2, _ => decide +kernel)
+    (by intro a ha; match a, ha with | 0, _ => decide | 1, _ => decide | 2, _ => decide)
+    (by decide) (fun _ => rfl) (by decide)
+  refine ⟨g, h, hn, ?_⟩
+  have := hd 0 1 0 2 (by decide) (by decide) (by decide) (by decide)
+  rw [this]; rfl
+
 
 end DFV.C09
